@@ -106,7 +106,14 @@ func ErrorCorrection_EncodeECC200(codewords []byte, symbolInfo *SymbolInfo) ([]b
 			}
 			ecc, _ := createECCBlock(temp, errorSizes[block])
 			pos := 0
-			for e := block; e < errorSizes[block]*blockCount; e += blockCount {
+			start := block
+			if blockCount == 10 {
+				// 144x144: the interleaving runs over the whole codeword stream, so the error
+				// codewords continue the rotation where the 1558 data codewords stopped
+				// (error codeword j belongs to block (j+8) mod 10, as the decoder assumes)
+				start = (block + 2) % blockCount
+			}
+			for e := start; e < errorSizes[block]*blockCount; e += blockCount {
 				sb[symbolInfo.GetDataCapacity()+e] = ecc[pos]
 				pos++
 			}
